@@ -16,7 +16,8 @@ func init() { Registry["C15"] = C15 }
 
 // decoys: files that no command may touch (paths relative to the sandbox; the CRS root is crs/)
 var c15Decoys = []core.Tree{
-	{"crs/regex-assembly/notes.txt": "notes\n", "crs/regex-assembly/notes.raw": "a\n", "crs/regex-assembly/include/notes.txt": "  notes\n", "crs/regex-assembly/include/inc.raw": "  a\n\n", "crs/regex-assembly/include/words.v2.txt": " w\n"},
+	{"crs/regex-assembly/notes.txt": "notes\n", "crs/regex-assembly/notes.raw": "a\n", "crs/regex-assembly/include/notes.txt": "  notes\n", "crs/regex-assembly/include/inc.raw": "  a\n\n", "crs/regex-assembly/include/words.v2.txt": " w\n",
+		"crs/regex-assembly/NOTES.RA": "  loud\n", "crs/regex-assembly/include/words.Ra": "  mixed\n", "crs/regex-assembly/exclude/LEGACY.rA": "  old\n\n", "crs/rules/REQUEST-123-TEST.CONF": setupExample, "crs/tests/regression/tests/REQUEST-123-TEST/123459.YAML": testYaml},
 	{"crs/regex-assembly/123456.ra.bak": "  unformatted\n\n\n", "crs/regex-assembly/include/inc.ra~": " x\n"},
 	{"crs/rules/REQUEST-222-X.conf.bak": setupExample, "crs/rules/notes.txt": "# OWASP CRS ver.3.0.0\n", "crs/x.confx": setupExample, "crs/example": setupExample,
 		"crs/rules/modsecurity_conf": setupExample, "crs/httpd-vhost-conf": setupExample, "crs/setup-example": setupExample, "crs/rules/Xconf": setupExample, "crs/rules/a.conf.example.txt": setupExample},
